@@ -917,7 +917,7 @@ Qed.
 Lemma ex_unm : Core.unm xrt no_env 4 ex_T (ex_pv xC Core.KList ex_wire) = Core.Ok (ex_pv xC Core.KTuple ex_vals).
 Proof.
   unfold ex_T, ex_pv, ex_vals, ex_wire.
-  cbn [Core.unm Core.load Core.is_scalar Core.itervalues Core.bind Core.mapM Core.zip_trunc map fst snd
+  cbn [Core.unm Core.elem_conv Core.hashes Core.load Core.is_scalar Core.itervalues Core.bind Core.mapM Core.zip_trunc map fst snd
        Core.leaf_u bridged Core.construct_seq List.length Nat.ltb Nat.leb].
   unfold b_leaf_u. cbn [ex_kinds]. rewrite !(run_leaf_enc xC CLx). vm_compute. reflexivity.
 Qed.
